@@ -123,9 +123,13 @@ def read_rows(root):
         return []
     conn = sqlite3.connect(path)
     try:
-        rows = conn.execute(
-            "SELECT task_identifier, timestamp, git_commit_hash, has_uncommitted_changes "
-            "FROM version_index ORDER BY task_identifier, timestamp").fetchall()
+        if conn.execute("PRAGMA user_version").fetchone()[0] == 1:
+            rows = [(t, ts, None, 0) for t, ts in conn.execute(
+                "SELECT task_identifier, timestamp FROM version_index ORDER BY task_identifier, timestamp").fetchall()]
+        else:
+            rows = conn.execute(
+                "SELECT task_identifier, timestamp, git_commit_hash, has_uncommitted_changes "
+                "FROM version_index ORDER BY task_identifier, timestamp").fetchall()
     except sqlite3.OperationalError as ex:
         if "no such table" not in str(ex):
             raise
